@@ -795,6 +795,8 @@ class _Coupling(Fam):
                     kw["min_bin_width"] = cfg["minw"]
                 if cfg.get("minh"):
                     kw["min_bin_height"] = cfg["minh"]
+        if not self.has_tails:
+            kw.update(_uncond_kw(cfg))
         return self.cls()(mask=cfg["mask"], transform_net_create_fn=net_factory(cfg, image), **kw)
 
     def meta(self, cfg):
@@ -817,6 +819,20 @@ class _Coupling(Fam):
                      edges=_spline_edges(cfg["tails"], cfg["B"]) if self.has_tails else ())
 
 
+def _uncond_affine(cfg, rng):
+    """the generic `unconditional_transform` argument of the affine / additive couplings: an elementwise affine map of the identity
+    features (its log-abs-det is a broadcast scalar)"""
+    if rng.random() < 0.25:
+        cfg["uncond"] = cfg["uncond_affine"] = True
+
+
+def _uncond_kw(cfg):
+    if not cfg.get("uncond_affine"):
+        return {}
+    from nflows import transforms as T
+    return {"unconditional_transform": lambda features: T.PointwiseAffineTransform(shift=0.3, scale=1.7)}
+
+
 @reg
 class CAffine(_Coupling):
     name = "coupling_affine"
@@ -825,9 +841,12 @@ class CAffine(_Coupling):
 
     def extra(self, cfg, rng):
         cfg["scale_act"] = str(rng.choice(["default", "general"]))
+        _uncond_affine(cfg, rng)
 
     def extra_must(self, c, i):
         c["scale_act"] = "default" if i % 2 == 0 else "general"
+        if i == 1:
+            c["uncond"] = c["uncond_affine"] = True
 
     def build(self, cfg):
         from nflows import transforms as T
@@ -835,7 +854,7 @@ class CAffine(_Coupling):
         sa = T.AffineCouplingTransform.DEFAULT_SCALE_ACTIVATION if cfg.get("scale_act", "default") == "default" \
             else T.AffineCouplingTransform.GENERAL_SCALE_ACTIVATION
         return T.AffineCouplingTransform(mask=cfg["mask"], transform_net_create_fn=net_factory(cfg, image),
-                                         scale_activation=sa)
+                                         scale_activation=sa, **_uncond_kw(cfg))
 
     def meta(self, cfg):
         m = super().meta(cfg)
@@ -849,6 +868,13 @@ class CAdditive(_Coupling):
     name = "coupling_additive"
     kind = "additive"
     has_tails = False
+
+    def extra(self, cfg, rng):
+        _uncond_affine(cfg, rng)
+
+    def extra_must(self, c, i):
+        if i == 3:
+            c["uncond"] = c["uncond_affine"] = True
 
 
 @reg
